@@ -1367,13 +1367,19 @@ impl Writer {
   fn remove_all_acked_changes_but_keep_depth(&mut self, depth: usize) {
     let first_keeper = if !self.like_stateless {
       // Regular stateful writer behavior
-      // All readers have acked up to this point (SequenceNumber)
+      // All readers have acked up to this point (SequenceNumber).
+      // Only Reliable readers ever acknowledge anything: BestEffort readers
+      // must not hold back the cleaning, and if there is no Reliable reader
+      // at all, everything written so far counts as acknowledged.
+      // A reader cannot acknowledge more than what has been written.
+      let all_written_before = self.history_buffer.last_change_sequence_number().plus_1();
       let acked_by_all_readers = self
         .readers
         .values()
+        .filter(|rp| rp.qos().is_reliable())
         .map(RtpsReaderProxy::acked_up_to_before)
         .min()
-        .unwrap_or_else(SequenceNumber::zero);
+        .map_or(all_written_before, |acked| min(acked, all_written_before));
       // If all readers have acked all up to before 5, and depth is 5, we need
       // to keep samples 0..4, i.e. from acked_up_to_before - depth .
       max(
